@@ -644,6 +644,7 @@ class SigmaCorrelationRule(SigmaRuleBase, ProcessingItemTrackingMixin):
                         "Sigma correlation aliases definition must be a dict", source=source
                     )
                 )
+                aliases = SigmaCorrelationFieldAliases()  # the invalid value isn't kept in the rule
         else:
             aliases = SigmaCorrelationFieldAliases()
 
